@@ -130,7 +130,7 @@ func TestVtraceWorkload(t *testing.T) {
 	defer f.Close()
 	si, sn := hk.Shard()
 	c := &vtCtx{f: f, shardI: si, shardN: sn, rng: hk.NewRNG(hk.Seed(), "vtrace")}
-	big := make([]byte, 8*4096)
+	big := make([]byte, 16*4096)
 	// carve fixed, 64-byte aligned buffers out of one allocation
 	base := (64 - int(uintptr(unsafe.Pointer(&big[0]))%64)) % 64
 	cut := func(n int) []byte {
@@ -139,7 +139,7 @@ func TestVtraceWorkload(t *testing.T) {
 		return b
 	}
 	c.obj, c.key, c.nonce, c.aad = cut(256), cut(16), cut(320), cut(1200)
-	c.src, c.dst, c.temp, c.H, c.tag = cut(1200+16), cut(1200+16), cut(32), cut(16), cut(16)
+	c.src, c.dst, c.temp, c.H, c.tag = cut(8300+16), cut(8300+16), cut(32), cut(16), cut(16)
 
 	thorough := hk.Thorough()
 	contents := []string{"A", "B", "zero", "ones"}
@@ -283,6 +283,8 @@ func TestVtraceWorkload(t *testing.T) {
 		}
 		cfgs = append(cfgs, gcfg{129, 129, 257, 16}, gcfg{16, 0, 0, 12}, gcfg{12, 0, 0, 16})
 	}
+	// messages long enough for several rounds of the 16-block loop and its look-ahead logic (both tiers)
+	cfgs = append(cfgs, gcfg{12, 20, 1536, 16}, gcfg{12, 0, 2048 + 5, 16}, gcfg{12, 16, 4096 + 17, 16}, gcfg{13, 3, 8192 + 1, 16})
 	for _, g := range cfgs {
 		if !(want("sealAsm") || want("openAsm")) || !c.takeConfig() {
 			continue
